@@ -58,6 +58,10 @@ def kinds_of_ctx(ctx, al=None):
                 out.append('_')
             else:
                 out.append(pat_head(p))
+        elif c['k'] == 'iflet' and c['pat']['k'] in ('Tuple',) or (c['k'] == 'iflet' and c['pat']['k'] in ('TupleStruct', 'Struct') and _nested_heads(c['pat'])):
+            # one `if let` over a tuple / nested pattern stands for the nested `if let`s it abbreviates
+            for h_ in _all_heads(c['pat']):
+                out.append(('' if c['pol'] else '!') + h_)
         elif c['k'] == 'iflet':
             h = pat_head(c['pat'])
             e = c['expr']
@@ -70,6 +74,32 @@ def kinds_of_ctx(ctx, al=None):
         elif c['k'] == 'survive':
             pass
     return tuple(out)
+
+
+def _all_heads(p):
+    """path heads of a (nested) pattern, outermost first, left to right"""
+    k = p['k']
+    out = []
+    if k in ('TupleStruct', 'Struct', 'Path'):
+        if k == 'TupleStruct' and p['elems'] and all(e['k'] == 'Lit' for e in p['elems']):
+            return [pat_s(p).replace(' ', '')]
+        if not (k == 'Struct' and p['path']['s'][:1].isupper() and '::' not in p['path']['s'] and p['path']['s'].startswith('Expr')):
+            out.append(p['path']['s'])
+        subs = p.get('elems') or [f['pat'] for f in p.get('fields', [])]
+        for e in subs:
+            out += _all_heads(e)
+    elif k == 'Tuple':
+        for e in p['elems']:
+            out += _all_heads(e)
+    elif k in ('Ref', 'Type'):
+        out += _all_heads(p['pat'])
+    elif k == 'Ident' and p.get('sub'):
+        out += _all_heads(p['sub'])
+    return out
+
+
+def _nested_heads(p):
+    return len(_all_heads(p)) > 1
 
 
 def pat_head(p):
